@@ -39,6 +39,9 @@ type Case struct {
 	Auth              string `json:"auth"`               // "" = not configured
 	Seed              uint64 `json:"seed"`               // content of the scratch tree
 	Reqs              []Req  `json:"reqs"`
+	// CLI != nil: the case is served by a real `desync chunk-server|index-server` process
+	// (Via "cli"; see cli_test.go). The fields above then describe how that process is configured.
+	CLI *CLICase `json:"cli,omitempty"`
 }
 
 type Req struct {
@@ -254,7 +257,7 @@ type verdictInfo struct {
 }
 
 func judge(o *hx.Outcome, c Case, i int, r Req, body []byte, hasBody bool, resp response, s seen, calls []string, before, after snap) (obs reqObs, vi verdictInfo) {
-	sig := func(x string) string { return "C15:" + c.Server + ":" + x }
+	sig := func(x string) string { return sigFor(c, x) }
 	status, rbody := resp.Status, resp.Body
 	if status == 0 && s.Reached {
 		status, rbody = s.Status, s.Body // the wire response was lost; the handler's own answer is known
@@ -293,7 +296,7 @@ func judge(o *hx.Outcome, c Case, i int, r Req, body []byte, hasBody bool, resp 
 	// (1) authorization configured and the handler was not given exactly that value
 	if c.Auth != "" && s.Reached && !contains(s.Auth, c.Auth) {
 		var bad []string
-		if status < 400 {
+		if status != 0 && status < 400 { // 0: no response arrived (CLI cases only; judged by effects alone)
 			bad = append(bad, fmt.Sprintf("status %d", status))
 		}
 		if len(calls) > 0 {
@@ -326,7 +329,7 @@ func judge(o *hx.Outcome, c Case, i int, r Req, body []byte, hasBody bool, resp 
 		}
 		badUpload = !match
 		if badUpload && !c.SkipVerifyWrite && authorised {
-			if status < 400 {
+			if status != 0 && status < 400 {
 				o.Fail(sig("bad-upload-accepted"), "%s: body (%d bytes) does not decode to chunk %s, verification is on, but status %d", what, len(body), id, status)
 			}
 			if len(changes) > 0 {
@@ -504,7 +507,21 @@ func realHandler(e *env) http.Handler {
 
 var devNull, _ = os.OpenFile(os.DevNull, os.O_WRONLY, 0)
 
-func run(c Case) hx.Outcome { return runWith(c, realHandler) }
+func run(c Case) hx.Outcome {
+	if c.CLI != nil {
+		return runCLI(c)
+	}
+	return runWith(c, realHandler)
+}
+
+// sigFor makes the signature of a violated clause: "C15:chunk:…", "C15:index:…" for the library
+// handlers, "C15:cli-chunk:…", "C15:cli-index:…" when the case ran against the CLI process.
+func sigFor(c Case, x string) string {
+	if c.CLI != nil {
+		return "C15:cli-" + c.Server + ":" + x
+	}
+	return "C15:" + c.Server + ":" + x
+}
 
 func runWith(c Case, mk func(*env) http.Handler) (o hx.Outcome) {
 	if c.Server != "index" {
@@ -554,6 +571,14 @@ func runWith(c Case, mk func(*env) http.Handler) (o hx.Outcome) {
 		before = after
 	}
 
+	finishOutcome(&o, c, descReqs, nontrivial, observed)
+	finished = true
+	return o
+}
+
+// finishOutcome is the common end of a case: violations thinned out, configuration classes,
+// descriptor, key.
+func finishOutcome(o *hx.Outcome, c Case, descReqs []string, nontrivial bool, observed any) {
 	// a case with many requests repeats itself: keep three messages per signature
 	{
 		count := map[string]int{}
@@ -588,15 +613,17 @@ func runWith(c Case, mk func(*env) http.Handler) (o hx.Outcome) {
 		flag(c.StoreUncompressed, "cfg:store-uncompressed", "cfg:store-compressed")
 		flag(c.Wire == "cli", "cfg:wired-like-cli", "cfg:wired-plain")
 	}
-	o.Desc = map[string]any{"server": c.Server, "via": c.Via, "writable": c.Writable, "skip_verify_write": c.SkipVerifyWrite,
+	desc := map[string]any{"server": c.Server, "via": c.Via, "writable": c.Writable, "skip_verify_write": c.SkipVerifyWrite,
 		"compressed": c.Compressed, "store_uncompressed": c.StoreUncompressed, "wire": c.Wire, "auth_set": c.Auth != "",
 		"nreq": len(c.Reqs), "reqs": descReqs}
+	if c.CLI != nil {
+		desc["cli"] = map[string]any{"auth_via": c.CLI.AuthVia, "cfg_via": c.CLI.CfgVia, "long_flags": c.CLI.Long, "log": c.CLI.Log}
+	}
+	o.Desc = desc
 	kb, _ := json.Marshal(c)
 	o.Key = hx.Hash8(kb) + hx.Hash8(append(kb, 1))
 	o.Nontrivial = nontrivial
 	o.Observed = observed
-	finished = true
-	return o
 }
 
 var spec = &hx.Spec[Case]{
